@@ -681,8 +681,9 @@ class FileSet:
             matches = list(
                 self.match(other, start, end, max_interval=max_interval)
             )
-        if not matches:
-            # Nothing matches, i.e. there is nothing to align:
+        if len(matches) == 0:
+            # Nothing matches, i.e. there is nothing to align (`matches` may
+            # be a list or an array of matches):
             return
         primaries, secondaries = zip(*matches)
 
